@@ -88,6 +88,10 @@ class CallMixin(object):
                 return self.glist_attr_count(st, self.eval(st, e.args[0]), self.eval(st, e.args[1]))
             if n == 'attr_before':
                 return self.glist_attr_before(st, self.eval(st, e.args[0]), self.eval(st, e.args[1]), self.eval(st, e.args[2]))
+            if n == 'each_call_preceded':
+                a = self.const_str(self.eval(st, e.args[0]))
+                b = self.const_str(self.eval(st, e.args[1]))
+                return V(mkB(self.calls_preceded(a, b)), parse_spec('bool'))
             if n == 'calls_ordered':
                 a = self.const_str(self.eval(st, e.args[0]))
                 b = self.const_str(self.eval(st, e.args[1]))
@@ -124,6 +128,11 @@ class CallMixin(object):
         kwargs = {}
         for k in e.keywords:
             if k.arg is None:
+                kv = self.eval(st, k.value)
+                if isinstance(kv, PyObj) and isinstance(kv.o, dict) and all(isinstance(x, str) for x in kv.o):
+                    for kk, vv in kv.o.items():
+                        kwargs[kk] = vv
+                    continue
                 raise EngineError('**kwargs call')
             kwargs[k.arg] = self.eval(st, k.value)
         return self.call_value(st, fv, args, kwargs, line)
@@ -131,6 +140,17 @@ class CallMixin(object):
     def call_value(self, st, fv, args, kwargs, line=0):
         if isinstance(fv, Closure):
             return self.call_closure(st, fv, args, kwargs)
+        if isinstance(fv, Bound) and isinstance(fv.func, tuple) and fv.func[0] == 'dyn':
+            items = fv.func[1]
+
+            def rec(s, i):
+                fn, ds = items[i]
+                run = lambda s2: self.call_function(s2, fn, [fv.selfv] + args, kwargs, line=line)
+                if i == len(items) - 1:
+                    return run(s)
+                cnd = Or(*[cls_of(Val.r(fv.selfv.t)) == UNIVERSE.cid(d) for d in ds])
+                return self.branch(s, cnd, run, lambda s2: rec(s2, i + 1))
+            return rec(st, 0)
         if isinstance(fv, Bound):
             if fv.func is None or not isinstance(fv.func, types.FunctionType):
                 return self.call_method_builtin(st, fv.selfv, fv.name, args, kwargs, line)
@@ -182,9 +202,7 @@ class CallMixin(object):
                 continue
             env[k] = v
         if a.kwarg:
-            if extra:
-                raise EngineError('**kwargs with content')
-            env[a.kwarg.arg] = PyObj({})
+            env[a.kwarg.arg] = PyObj(dict(extra))
         ndef = len(a.defaults)
         for i, n in enumerate(names):
             if n not in env:
@@ -327,6 +345,11 @@ class CallMixin(object):
             mode = 'inline'
         if mode is None and f.__module__ in ('operator',):
             return self.call_builtin(st, f, args, kwargs, line)
+        if mode is None and self.cur_contract is not None and '.' not in f.__qualname__ and \
+                self.cur_contract.qual.startswith(f.__module__ + '.') and len(self.cur_contract.qual[len(f.__module__) + 1:].split('.')) == 1:
+            # a module-level helper of the same module without a contract of its own (e.g. extracted by a refactoring)
+            # is executed inline; reported in the evidence
+            mode = 'inline'
         if mode is None:
             raise EngineError('call to %s has neither contract nor inline mark (line %d)' % (q, line))
         if mode == 'inline':
@@ -355,7 +378,7 @@ class CallMixin(object):
         q = '%s.%s' % (cls.__module__, cls.__qualname__)
         mode = self.registry.mode_for(q, self.cur_contract)
         r = self.new_ref(st, cls)
-        obj = V(mkR(r), TypeSpec('obj', (cls,)))
+        obj = V(mkR(r), TypeSpec('obj', (cls,), exact=True))
         init = None
         for k in cls.__mro__:
             if '__init__' in vars(k):
@@ -588,6 +611,13 @@ class CallMixin(object):
 
     # ------------------------------------------------------------------ methods of builtin types
     def call_method_builtin(self, st, selfv, name, args, kwargs, line):
+        if isinstance(selfv, V):
+            import re as _re
+            t = simp(selfv.t)
+            if z3.is_app(t) and t.decl().name() == 'R' and z3.is_int_value(t.arg(0)):
+                for (ref, obj) in self.conc.values():
+                    if ref == t.arg(0).as_long() and isinstance(obj, _re.Pattern):
+                        selfv = PyObj(obj)
         if isinstance(selfv, GList):
             return self.glist_method(st, selfv, name, args, line)
         if isinstance(selfv, PyTuple):
@@ -601,6 +631,22 @@ class CallMixin(object):
                 return self.lift(list(getattr(o, name)()))
             if isinstance(o, str):
                 return self.str_method(st, self.lift(o), name, args, kwargs, line)
+            import re as _re
+            if isinstance(o, _re.Pattern) and name in ('search', 'match', 'fullmatch') and len(args) == 1:
+                from .regex import pattern_to_z3
+                rx = pattern_to_z3(o.pattern, o.flags & (_re.VERBOSE | _re.DOTALL | _re.IGNORECASE | _re.MULTILINE))
+                if o.flags & (_re.IGNORECASE | _re.MULTILINE):
+                    raise EngineError('regex flags IGNORECASE/MULTILINE')
+                full = z3.Full(z3.ReSort(StrS))
+                if name == 'search':
+                    lang = z3.Concat(full, rx, full)
+                elif name == 'match':
+                    lang = z3.Concat(rx, full)
+                else:
+                    lang = rx
+                self.trust("python `re` = regular-language semantics (only the truth value of a match is modelled)")
+                hit = z3.InRe(Val.s(args[0].t), lang)
+                return V(Ite(hit, mkB(True), NONE), None)
             raise EngineError('method %s on python object %r' % (name, type(o)))
         h = selfv.hint
         if h is not None and h.kind == 'obj':
